@@ -44,6 +44,17 @@ def spec_items(tier):
     # fans and corridors only: probabilities of 1e-6 / 1e-9 are below the resolution of the planner's own 1e-10 tie tests
     yield from (it for it in build.edge_mdps() if it[5] > 0 and not any(p not in (0, 1) and (p < F(1, 100) or p > F(99, 100))
                                                                 for row in it[2] for _, d, _ in row for _, p in d))
+    # huge per-step costs everywhere (no absorbing state: gains around -1000) next to a state that lacks an action
+    one = F(1)
+    for g in (F(9, 10), F(1)):
+        for r0, r1a, r1b, back in ((-1000, -1000, -2000, 1), (-1000, -1500, -2000, 0), (-3000, -800, -900, 1), (-1000, -2000, -1000, 0)):
+            T = ((('a', ((1, one),), F(r0)),), (('a', ((back, one),), F(r1a)), ('b', ((1, one),), F(r1b))))
+            yield ('mdp', 2, T, (), ((0, one),), g)
+            T = ((('a', ((back, one),), F(r1a)), ('b', ((0, one),), F(r1b))), (('b', ((0, one),), F(r0)),))
+            yield ('mdp', 2, T, (), ((0, F(1, 2)), (1, F(1, 2))), g)
+    # nearly tied actions: rewards 0.0100 / 0.0105 / 0.0095 give action-value gaps of 5e-4 and less, far above round-off
+    yield from build.enum_mdps(2, [('a', 'b')], 1, [F(1, 100), F(21, 2000), F(19, 2000)], [(), (1,)], [build.INIT_MENU[2][1]], [F(9, 10)],
+                               nonpositive_when_undiscounted=False)
     # discount close to 1 / many self-loops: the evaluation system is badly scaled (rows of size 1-gamma)
     yield from build.enum_mdps(3, [('a',)], 0, [F(1), F(-1)], [()], [build.INIT_MENU[3][1]], [F(99, 100)], nonpositive_when_undiscounted=False)
     yield from build.enum_mdps(4, [('a',)], 0, [F(1)], [()], [build.INIT_MENU[4][1]], [F(9, 10)], nonpositive_when_undiscounted=False)
